@@ -1,4 +1,4 @@
 INIT Init
 NEXT Next
-INVARIANTS Total Offsets CommentOpaque LineOpaque LayoutFree NamesAreNames EmitScan
+INVARIANTS Total LeavesInitial Offsets CommentOpaque LineOpaque LayoutFree NamesAreNames EmitScan
 CHECK_DEADLOCK FALSE
